@@ -13,7 +13,7 @@ if TYPE_CHECKING:
 
 _RE_CONTROL = re.compile((
     '[' + ''.join(
-    ch for ch in map(chr, range(0, 32)) if ch not in '\r\n\t\f'
+    ch for ch in map(chr, range(0, 32)) if ch not in '\r\n\t'
     ) + ']'
     ).encode())
 
